@@ -219,6 +219,14 @@ func cmdCheck(args []string) (code int) {
 	c.checkDevModeFold()
 	p.AlwaysCut = []LitPat{p.emulateTrue()}
 	pi.Run(c)
+	for _, sr := range sharedRules {
+		for _, pid := range sr.Props {
+			if pid == id {
+				body := sr.Body
+				c.Rule(id+"."+sr.Suffix, func() { body(c) })
+			}
+		}
+	}
 	return c.finish(pi, start, *verbose)
 }
 
@@ -344,7 +352,7 @@ func (c *Check) writeEvidence(pi *propInfo, start time.Time, discharged, nviol i
 		perRule[r] = map[string]int{"instances": rules[r][0], "hold": rules[r][1]}
 	}
 	cov := map[string]any{
-		"explanation":         pi.Explanation + " NOT DECIDED (not applicable to static analysis): " + pi.NotDecided,
+		"explanation":         fullExplanation(c.Prop, pi) + " NOT DECIDED (not applicable to static analysis): " + pi.NotDecided,
 		"obligations":         len(c.obs),
 		"discharged":          discharged,
 		"evaluations":         len(c.obs),
@@ -458,4 +466,31 @@ func (c *Check) chaCrossCheck() any {
 		rows = append(rows, row{r.Name, len(a), len(b), extra})
 	}
 	return rows
+}
+
+// sharedRule: one rule body recorded under the id of every property that depends on it (the producers of the
+// inputs the property's own gates read). The obligations are identical; each property reports them as its own.
+type sharedRule struct {
+	Suffix string
+	Props  []string
+	Body   func(c *Check)
+	Doc    string
+}
+
+var sharedRules []sharedRule
+
+func fullExplanation(id string, pi *propInfo) string {
+	e := pi.Explanation
+	var docs []string
+	for _, sr := range sharedRules {
+		for _, pid := range sr.Props {
+			if pid == id {
+				docs = append(docs, sr.Doc)
+			}
+		}
+	}
+	if len(docs) > 0 {
+		e += " Shared producer rules (reported under this property's id as well): " + strings.Join(docs, "; ") + "."
+	}
+	return e
 }
